@@ -240,7 +240,7 @@ example : WF exRecDec ⟨[0x80], .pong 5 (.v6 [0, 0, 0, 0, 0, 0, 0, 0, 0, 0, 0, 
 example : WF exRecDec ⟨[1], .findNode [0, 255, 256]⟩ :=
   ⟨by decide, by simp [BodyWF], by enc_size⟩
 
-private theorem exRecs_wf : ∀ r ∈ [exRec, exRec], RecordWF exRecDec r := by
+theorem exRecs_wf : ∀ r ∈ [exRec, exRec], RecordWF exRecDec r := by
   intro r hr
   have : r = exRec := by simpa using hr
   subst this
